@@ -269,17 +269,20 @@ def first_diff(a, b):
     return None
 
 
-def shrink_ops(ops, still_fails, keep_prefix=0, budget=400):
-    """Delta debugging on an op list. `still_fails(ops) -> bool`."""
+def shrink_ops(ops, still_fails, keep_prefix=0, budget=400, seconds=60):
+    """Delta debugging on an op list. `still_fails(ops) -> bool`.  Bounded by a number of candidates
+    and by wall time (a 65 535-op case on the quadratic list model takes seconds per candidate)."""
     ops = list(ops)
     n = 2
     calls = 0
-    while len(ops) - keep_prefix >= 1 and calls < budget:
+    t_end = time.time() + seconds
+    budget_left = lambda: calls < budget and time.time() < t_end
+    while len(ops) - keep_prefix >= 1 and budget_left():
         body = ops[keep_prefix:]
         chunk = max(1, len(body) // n)
         reduced = False
         i = 0
-        while i < len(body) and calls < budget:
+        while i < len(body) and budget_left():
             cand = ops[:keep_prefix] + body[:i] + body[i + chunk :]
             calls += 1
             try:
@@ -294,7 +297,7 @@ def shrink_ops(ops, still_fails, keep_prefix=0, budget=400):
             else:
                 i += chunk
         if not reduced:
-            if chunk == 1:
+            if chunk == 1 or not budget_left():
                 break
             n = min(n * 2, len(body))
     return ops
